@@ -72,6 +72,17 @@ type steps struct {
 	// the same advertisement in the first features list, where the double's
 	// prerequisites (authenticated) do not hold yet
 	extraAdvertEarly string
+	// how the harness, as receiving peer, answers the bind request: "" result,
+	// "error" (with an <error/> child), "error-empty" (an error IQ without
+	// children), "error-echo" (an error IQ that only echoes the request),
+	// "get" / "notype" (an IQ that is neither result nor error)
+	bindReply string
+}
+
+func withBindReply(tr transcript, kind string) transcript {
+	tr.name += " bind-answered-with=" + kind
+	tr.prep = func(st *steps) { st.bindReply = kind }
+	return tr
 }
 
 func hdr(ws bool, ns, from, to, id string) string {
@@ -366,6 +377,18 @@ func fullInitiator(ws bool, withVol bool, volFails bool, s2s bool) transcript {
 			case bytes.Contains(fresh, []byte("<vol")):
 				return []byte(`<ok xmlns="urn:verif:vol"/>`)
 			case bytes.Contains(fresh, []byte("<iq")):
+				switch st.bindReply {
+				case "error":
+					return []byte(`<iq xmlns="jabber:client" type="error" id="` + idOf(fresh) + `"><error type="cancel"><conflict xmlns="urn:ietf:params:xml:ns:xmpp-stanzas"/></error></iq>`)
+				case "error-empty":
+					return []byte(`<iq xmlns="jabber:client" type="error" id="` + idOf(fresh) + `"/>`)
+				case "error-echo":
+					return []byte(`<iq xmlns="jabber:client" type="error" id="` + idOf(fresh) + `"><bind xmlns="` + bindNS + `"><resource>balcony</resource></bind></iq>`)
+				case "get":
+					return []byte(`<iq xmlns="jabber:client" type="get" id="` + idOf(fresh) + `"><bind xmlns="` + bindNS + `"><jid>` + client.String() + `</jid></bind></iq>`)
+				case "notype":
+					return []byte(`<iq xmlns="jabber:client" id="` + idOf(fresh) + `"><bind xmlns="` + bindNS + `"><jid>` + client.String() + `</jid></bind></iq>`)
+				}
 				return []byte(`<iq xmlns="jabber:client" type="result" id="` + idOf(fresh) + `"><bind xmlns="` + bindNS + `"><jid>` + client.String() + `</jid></bind></iq>`)
 			}
 			return nil
@@ -590,6 +613,9 @@ func runWith(tr transcript, f fault, plainRW bool) result {
 	hook := func(isRead bool) error {
 		idx := ops
 		ops++
+		if f.kind == "cancelplain" && idx == f.n {
+			cancel()
+		}
 		if f.kind == "cancel" && idx == f.n {
 			cancel()
 			// give the library the chance to act on the cancellation before the
@@ -686,8 +712,23 @@ func judge(tr transcript, f fault, base, r result) string {
 	if failedStep && r.err == nil {
 		return "a negotiation step reported an error but the constructor returned nil (state " + fmt.Sprint(r.s.State()) + ")"
 	}
+	// whatever happened, and wherever: an error never comes with a ready
+	// session, and success never with one that is not ready
+	if r.err != nil && ready(r) {
+		return fmt.Sprintf("the constructor returned the error %v together with a session that is marked ready (state %v)", r.err, r.s.State())
+	}
+	if r.err == nil && !ready(r) {
+		return fmt.Sprintf("the constructor returned nil but the session is not ready (state %v)", r.s.State())
+	}
+	if r.err != nil {
+		if p := ev.Guard(func() { _ = r.err.Error() }); p != "" {
+			return fmt.Sprintf("the error the constructor returned (%T) cannot be rendered: %s", r.err, p)
+		}
+	}
 	switch f.kind {
-	case "none":
+	case "none", "cancelplain":
+		// (cancelplain: on a transport without deadlines nothing interrupts the
+		// steps; the handshake may run to completion or fail, consistently)
 		return ""
 	case "cut":
 		if f.n >= base.fed {
@@ -784,6 +825,10 @@ func TestC04Sweep(t *testing.T) {
 			ev.Case(n > 1, fmt.Sprintf("%s cancel@%d", tr.name, n), "cancel-before-op")
 			checkFault(t, tr, fault{kind: "cancel", n: n}, false, base)
 		}
+		for n := 0; n < base.ops; n++ {
+			ev.Case(n > 1, fmt.Sprintf("%s cancel@%d on a transport without deadlines", tr.name, n), "cancel-before-op-no-deadlines")
+			checkFault(t, tr, fault{kind: "cancelplain", n: n}, true, base)
+		}
 		for _, plain := range []bool{true, false} {
 			ev.Case(true, fmt.Sprintf("%s precancel plain=%v", tr.name, plain), "precancel")
 			r := runWith(tr, fault{kind: "precancel"}, plain)
@@ -872,6 +917,30 @@ func TestC04FailingStep(t *testing.T) {
 	}
 }
 
+// TestC04RefusedBind: the receiving entity answers the bind request, the step
+// that would complete the session, with something other than a result.
+func TestC04RefusedBind(t *testing.T) {
+	ev.Begin(t)
+	for _, ws := range []bool{false, true} {
+		for _, kind := range []string{"error", "error-empty", "error-echo", "get", "notype"} {
+			tr := withBindReply(fullInitiator(ws, false, false, false), kind)
+			for _, plain := range []bool{false, true} {
+				ev.Case(true, fmt.Sprintf("%s plain=%v", tr.name, plain), "bind-refused", "bind-refused-"+kind)
+				r := runWith(tr, fault{kind: "none"}, plain)
+				msg := judgeMust(r)
+				if msg == "" && r.err != nil {
+					if p := ev.Guard(func() { _ = r.err.Error() }); p != "" {
+						msg = fmt.Sprintf("the error the constructor returned (%T) cannot be rendered: %s", r.err, p)
+					}
+				}
+				if msg != "" {
+					ev.Failf(t, "%s\nthe peer answered the bind request with an IQ that is not a result\n%s", describe(tr, fault{kind: "none"}, plain, result{}, r), msg)
+				}
+			}
+		}
+	}
+}
+
 // TestC04Random draws transcript variants and faults at random (rapid).
 func TestC04Random(t *testing.T) {
 	trs := transcripts()
@@ -893,7 +962,10 @@ func TestC04Random(t *testing.T) {
 			max = base.ops
 		}
 		n := rapid.IntRange(0, max-1).Draw(rt, "n")
-		plain := rapid.Bool().Draw(rt, "plainrw") && kind != "cancel"
+		plain := rapid.Bool().Draw(rt, "plainrw")
+		if plain && kind == "cancel" {
+			kind = "cancelplain"
+		}
 		ev.Case(n > 0, fmt.Sprintf("%s %s@%d plain=%v", tr.name, kind, n, plain), "random-"+kind)
 		checkFault(rt, tr, fault{kind: kind, n: n}, plain, base)
 	})
